@@ -33,7 +33,7 @@ LEVEL_TEXT = ('exploration: ~4*10^3 (quick) / ~10^5 (thorough) evaluations over 
 LEVEL_NOTE = ('trusted base: released mpmath 1.3.0 + the tree at 3p+300 bits as consensus (a defect shared by both at all '
               'precisions is invisible unless a defining relation covers the cell); inputs not generated are not covered')
 TECHNIQUE = 'runtime reference-model monitor: consensus / defining-relation oracle on every observed value; verified-candidate oracle for Lambert W'
-SHARD_TIMEOUT = {'quick': 600, 'thorough': 3000}
+SHARD_TIMEOUT = {'quick': 1500, 'thorough': 4500}
 CASES = {'quick': 300, 'thorough': 7000}
 BUDGET = {'quick': 50, 'thorough': 420}
 NSHARDS = 16
@@ -249,16 +249,16 @@ def t_ellippi():
         RG('complete/m-near-1', A(n_lt1, below1(6, 60)), **HV),
         RG('complete/n-tiny', A(real_in(-120, -10), m_01), **HV),
         RG('complete/n=0', A(choice(0), m_01)),
-        RG('complete/n>1(principal-value)', A(uniform_bits(1.01, 10.0), m_01), tmax=4, precs=[10, 15, 30, 53], **HV),
-        RG('complete/n-complex', A(polar(0.1, 4.0, 0.2, 2.9), m_01), tmax=4, precs=[10, 15, 30, 53], **HV),
+        RG('complete/n>1(principal-value)', A(uniform_bits(1.01, 10.0), m_01), tmax=6, precs=[10, 15, 30], **HV),
+        RG('complete/n-complex', A(polar(0.1, 4.0, 0.2, 2.9), m_01), tmax=6, precs=[10, 15, 30], **HV),
         RG('incomplete/|phi|<=pi/2,n<1', A(n_lt1, phi_in, m_01), weight=2, **HV),
         RG('incomplete/|phi|>pi/2,n<1', A(n_lt1, phi_out, m_01), **HV),
         RG('incomplete/n*sin^2<1<n', A(uniform_bits(1.01, 1.9), uniform_bits(-0.7, 0.7), m_01), **HV),
-        RG('incomplete/n>1-beyond-pole(principal-value)', A(uniform_bits(2.0, 10.0), uniform_bits(0.9, 1.5), m_01), tmax=4, precs=[10, 15, 30, 53], **HV),
+        RG('incomplete/n>1-beyond-pole(principal-value)', A(uniform_bits(2.0, 10.0), uniform_bits(0.9, 1.5), m_01), tmax=6, precs=[10, 15, 30], **HV),
         RG('incomplete/m-neg', A(n_lt1, phi_in, m_neg), **HV),
         RG('incomplete/phi-tiny', A(n_lt1, real_in(-80, -8), m_01), **HV),
         RG('incomplete/n-tiny', A(real_in(-120, -10), phi_in, m_01), **HV),
-        RG('incomplete/phi-complex', A(n_lt1, polar(0.1, 1.5), m_01), tmax=4, precs=[10, 15, 30, 53], **HV),
+        RG('incomplete/phi-complex', A(n_lt1, polar(0.1, 1.5), m_01), tmax=6, precs=[10, 15, 30], **HV),
     ]
 
 
@@ -303,11 +303,11 @@ def t_elliprj():
         RG('all-near-equal', lambda r, b: (lambda a, c: [a[0], a[1], c[1], near_equal(lambda r2, b2: a[0])(r, b)[1]])(near_equal(pos)(r, b), near_equal(pos)(r, b))),
         RG('p-tiny', A(pos, pos, pos, real_in(-120, -20, 0))),
         RG('p-huge', A(pos, pos, pos, real_in(20, 120, 0))),
-        RG('p-negative(principal-value)', A(pos, pos, pos, real_in(-3, 5, 1)), tmax=4, precs=[10, 15, 30, 53], **HV),
+        RG('p-negative(principal-value)', A(pos, pos, pos, real_in(-3, 5, 1)), tmax=6, precs=[10, 15, 30], **HV),
         RG('complex-right-half-plane', A(cplx_rhp, cplx_rhp, cplx_rhp, cplx_rhp), weight=2),
         RG('conjugate-pair,p-positive', flat(conj_pair, pos, pos)),
-        RG('conjugate-pair,p-complex', flat(conj_pair, pos, polar_log(-2, 4, 0.2, 2.9)), tmax=4, precs=[10, 15, 30, 53], **HV),
-        RG('complex-any(integration)', A(cplx_any, cplx_any, pos, cplx_any), tmax=4, precs=[10, 15, 30, 53], **HV),
+        RG('conjugate-pair,p-complex', flat(conj_pair, pos, polar_log(-2, 4, 0.2, 2.9)), tmax=6, precs=[10, 15, 30], **HV),
+        RG('complex-any(integration)', A(cplx_any, cplx_any, pos, cplx_any), tmax=6, precs=[10, 15, 30], **HV),
     ]
 
 
